@@ -49,6 +49,7 @@ class Ref:
         self.tfiles = {(d[0], d[1]): cid for d, cid in tfiles}
         self.any_path_below_ups_db_is_own = False      # class predicate of D38 only
         self.streamed_table_not_compared = False       # class predicate of D39 only
+        self.foreign_setup_flavor_known = False        # class predicate of D44 only
         self.decl = {}
         self.tags = {}
         self.loaded = None      # class predicate of D16 only: flavors each stack shows to the command
@@ -304,7 +305,8 @@ class Ref:
         if c.get("setup") and not c.get("force"):
             sv, sf, ss = c["setup"]     # a version that a shell has set up is not undeclared under its feet
             # (an instance of flavor f knows the products of f and of its fallback flavor, no others)
-            if sf in fallbacks(f) and self.find(n, sv, sf, [ss]) is not None and ss == k[0] and sv == v:
+            if (sf in fallbacks(f) or self.foreign_setup_flavor_known) and self.find(n, sv, sf, [ss]) is not None \
+                    and ss == k[0] and sv == v:
                 raise Refused()
         if tag:
             self._untag(f, tag, n, v, k[0], dry)
